@@ -3,7 +3,7 @@
    (checkRangeRightBound returns the accumulated res; index bounds are never rewritten); Refuted.v shows that
    both deviations of today's code break them. *)
 From Coq Require Import ZArith List Bool Arith Sorted.
-From OG Require Import C20.Model C20.Proofs C20.Cover C20.ScanProofs.
+From OG Require Import C20.Model C20.Proofs C20.Cover C20.ScanProofs C20.TwoSided.
 Import ListNotations.
 
 (* mark_sound: CheckInRange over a hyper-rectangle never says "cannot be true" when some row of the rectangle
@@ -14,6 +14,16 @@ Theorem C20_mark_sound : forall isint nonkey c rpn rgs row,
   check_in_range rpn rgs = Some (mark_of isint c rgs) /\ can_t (mark_of isint c rgs) = true.
 Proof. exact mark_sound. Qed.
 Print Assumptions C20_mark_sound.
+
+(* two-sided mark_sound: canBeFalse is sound as well (what a NOT-like rewrite needs), for trees of key-column
+   comparisons and rows whose compared columns are not null; TwoSided.v shows both restrictions are necessary
+   (a non-key predicate is AlwaysTrue = (true,false); `!=` on a null). *)
+Theorem C20_mark_sound_two_sided : forall isint nonkey c rgs row,
+  key_only c = true -> nonnull_on c row -> rect_has rgs row ->
+  (eval_cond nonkey c row = true -> can_t (mark_of isint c rgs) = true) /\
+  (eval_cond nonkey c row = false -> can_f (mark_of isint c rgs) = true).
+Proof. exact mark_sound_two_sided. Qed.
+Print Assumptions C20_mark_sound_two_sided.
 
 (* rect_cover: the hyper-rectangles checkInAnyRange generates for the key interval [L,R] (common prefix, middle,
    left bound, right bound, recursively) cover every key tuple lexicographically between L and R. *)
